@@ -2,7 +2,7 @@
    All functions named nary_* are slices of sc_notify_recursive_nary GENERATED from /repo (Gen/NotifyC01.v). *)
 From Coq Require Import ZArith List Bool.
 From Coq Require Import Permutation Lia.
-From ScV Require Import Base.CInt Gen.NotifyC01 C01.NaryArith C01.NaryDelivery C01.MergeModel C01.MergeProofs C01.MergeCorr Gen.Consts C18.MacroProofs C01.BinaryArith.
+From ScV Require Import Base.CInt Gen.NotifyC01 C01.NaryArith C01.NaryDelivery C01.MergeModel C01.MergeProofs C01.MergeCorr Gen.Consts C18.MacroProofs C01.BinaryArith MPI.Prog C01.NotifyProgs C01.NotifyProgProofs.
 Import ListNotations.
 Local Open Scope Z_scope.
 
@@ -198,4 +198,52 @@ Example C01_binary_nonvacuous :
   (* 11 ranks, 4 levels; rank 10 (no peer at the top level: 10 ^ 8 = 2) and rank 9 whose peer 13 does not exist *)
   bdeliver 4 0 11 10 5 = 5 /\ bdeliver 4 0 11 9 7 = 7 /\ bpeer 2 11 9 = 5 /\ bpeer2 2 11 5 = 9 /\ bpeer 3 11 3 = -5 /\
   bfinal_senders 4 11 (fun f => if f =? 4 then [0; 9] else if f =? 9 then [9] else if f =? 10 then [9] else []) 9 = [4; 9; 10].
+Proof. repeat split; vm_compute; reflexivity. Qed.
+
+(* ---- per-rank programs (NotifyProgs.v: the programs co-simulated against the traces of the real code) --------
+   run rs p: the actions program p issues and its result when the MPI library answers with the replies rs.
+   `coll kind contributions rank` is what a collective returns; its specification is a hypothesis (MPI contract). *)
+
+(* allgather: proved outright from the contract of MPI_Allgather / MPI_Allgatherv (no point-to-point message):
+   the history in which the collectives return the concatenation of what the ranks really contribute ends on
+   every rank with the ascending list of the ranks that listed it *)
+Theorem C01_allgather_program : forall (coll : Z -> list payload -> Z -> payload),
+  (forall cs r, coll K_ALLGATHER cs r = concat cs) -> (forall cs r, coll K_ALLGATHERV cs r = concat cs) ->
+  forall P (R : Z -> list Z) me,
+  run [coll K_ALLGATHER (map (fun s => [Z.of_nat (length (R s))]) (ranks P)) me; coll K_ALLGATHERV (map R (ranks P)) me]
+      (allgather_core me (R me) None (fun s g => Ret (result s g)))
+  = ([Coll K_ALLGATHER (-1) [Z.of_nat (length (R me))]; Coll K_ALLGATHERV (-1) (R me)], Some (result (transpose P R me) [])).
+Proof. exact allgather_round. Qed.
+Print Assumptions C01_allgather_program.
+
+(* pcx (kind = K_RSB) and rsx (kind = K_RMA), round abstraction for the wildcard receives: whatever the order in
+   which the messages addressed to `me` are matched - any permutation `order` of the ranks that listed me - the
+   program returns that list, ascending when sorted output is requested; the census it waits for equals the number
+   of messages the other programs send to it *)
+Theorem C01_census_program : forall (coll : Z -> list payload -> Z -> payload) kind,
+  (forall cs r, coll kind cs r = [fold_right Z.add 0 (map (fun c => nth (Z.to_nat r) c 0) cs)]) ->
+  forall P (R : Z -> list Z), 0 < P -> forall me (sorted : bool) (order : list Z),
+  0 <= me < P -> Permutation order (transpose P R me) ->
+  let final := if sorted then transpose P R me else order in
+  run (coll kind (map (fun s => indicator P (R s)) (ranks P)) me :: repeat [] (length (R me)) ++ map (fun s => [s]) order)
+      (census_core kind P (R me) None sorted (fun s g => Ret (result s g)))
+  = (Coll kind (-1) (indicator P (R me))
+       :: map (fun r => Send r c_SC_TAG_NOTIFY_CENSUS []) (R me) ++ repeat (Recv ANY c_SC_TAG_NOTIFY_CENSUS) (length order),
+     Some (result final [])).
+Proof. intros coll kind H P R HP. exact (census_round_nopay coll kind H P R (fun _ _ => []) HP). Qed.
+Print Assumptions C01_census_program.
+
+(* transpose is the specification: ascending, duplicate free, exactly the ranks that listed me *)
+Theorem C01_transpose_spec : forall P (R : Z -> list Z) me,
+  ssorted (fun x => x) (transpose P R me) /\ forall f, In f (transpose P R me) <-> 0 <= f < P /\ In me (R f).
+Proof. intros P R me. split; [exact (transpose_ssorted P R me)|exact (transpose_In P R me)]. Qed.
+Print Assumptions C01_transpose_spec.
+
+Example C01_programs_nonvacuous :
+  let R := fun f : Z => if f =? 0 then [1; 2] else if f =? 2 then [1] else [] in
+  transpose 3 R 1 = [0; 2] /\
+  (* rank 0: census 0, two sends, nothing to receive; rank 1: census 2, messages arrive from 2 then from 0 *)
+  snd (run [[0]; []; []] (census_core K_RSB 3 (R 0) None true (fun s g => Ret (result s g)))) = Some [0] /\
+  snd (run [[2]; [2]; [0]] (census_core K_RSB 3 (R 1) None true (fun s g => Ret (result s g)))) = Some [2; 0; 2] /\
+  snd (run [[2]; [2]; [0]] (census_core K_RSB 3 (R 1) None false (fun s g => Ret (result s g)))) = Some [2; 2; 0].
 Proof. repeat split; vm_compute; reflexivity. Qed.
